@@ -14,6 +14,9 @@ Local Open Scope bool_scope.
 Section Origin.
 Variable D : desc.
 
+(* the field's type reference names a message (protoreflect: Message() is non-nil) *)
+Definition is_tmsg (f : field) : bool := match f_ty f with TMsg _ => true | _ => false end.
+
 (* field_matches with the look-ups into the schema set replaced by look-ups into the descriptors *)
 Fixpoint shape_b (s : fschema) (f : field) (item : bool) : bool :=
   match s with
@@ -40,10 +43,10 @@ Fixpoint shape_b (s : fschema) (f : field) (item : bool) : bool :=
           kind_eqb (f_kind f) KEnum &&
           (match find_enum D (value_full f) with Some e => ref_eqb k (enum_key e) | None => false end)
       | FObject k _ _ _ =>
-          kind_eqb (f_kind f) KMessage &&
+          kind_eqb (f_kind f) KMessage && is_tmsg f &&
           (match find_msg D (value_full f) with Some m2 => ref_eqb k (msg_key m2) && negb (is_oneof_wrapper m2) | None => false end)
       | FOneof k _ _ _ =>
-          kind_eqb (f_kind f) KMessage &&
+          kind_eqb (f_kind f) KMessage && is_tmsg f &&
           (match find_msg D (value_full f) with Some m2 => ref_eqb k (msg_key m2) && is_oneof_wrapper m2 | None => false end)
       | FAny _ _ _ =>
           kind_eqb (f_kind f) KMessage && (str_eqb (value_full f) s_PbAny || str_eqb (value_full f) s_J5Any)
@@ -204,8 +207,9 @@ Proof.
     assert (Hm : In m (d_msgs D)) by (eapply find_msg_In; eauto).
     assert (Hshape : forall fl lr, shape_b (if is_oneof_wrapper m then FOneof (msg_key m) None lr None
                                             else FObject (msg_key m) fl None None) f item = true).
-    { intros fl lr. destruct (is_oneof_wrapper m) eqn:Ew2; cbn [shape_b];
-        rewrite (card_ok_b f item Hc), Hk, Hv, Ef, ref_eqb_refl, Ew2; reflexivity. }
+    { intros fl lr. assert (Ht : is_tmsg f = true) by (unfold is_tmsg; rewrite Ety; reflexivity).
+      destruct (is_oneof_wrapper m) eqn:Ew2; cbn [shape_b];
+        rewrite (card_ok_b f item Hc), Hk, Ht, Hv, Ef, ref_eqb_refl, Ew2; reflexivity. }
     destruct (lookup st (msg_key m)) eqn:El; cbn [obind] in H.
     + inversion H; subst st1 s. split; [exact HI|apply Hshape].
     + destruct (rec ((msg_key m, Placeholder) :: st) m) as [[st2 r]| | |] eqn:Er; cbn [obind] in H; try discriminate.
@@ -546,14 +550,14 @@ Proof.
     destruct (Hrefs (enum_key e) (or_introl eq_refl)) as (r' & Hl).
     pose proof (HI e He) as Hen. unfold enum_entry_ok in Hen. rewrite Hl in *. destruct r'; try contradiction. reflexivity.
   - (* object *)
-    apply andb_prop in Hs as [Hc Hs]. apply andb_prop in Hs as [Hk Hs]. rewrite Hc, Hk. cbn [andb].
+    apply andb_prop in Hs as [Hc Hs]. apply andb_prop in Hs as [Hk Hs]. apply andb_prop in Hk as [Hk _]. rewrite Hc, Hk. cbn [andb].
     destruct (find_msg D (value_full f)) as [m2|] eqn:Ef; [|discriminate].
     apply andb_prop in Hs as [H1 H2]. apply ref_eqb_eq in H1. subst r. apply negb_true_iff in H2.
     assert (Hm : In m2 (d_msgs D)) by (eapply find_msg_In; eauto).
     destruct (Hrefs (msg_key m2) (or_introl eq_refl)) as (r' & Hl). rewrite Hl.
     destruct (msg_entry_kind m2 r' Hm Hl) as [E1 E2]. rewrite H2 in E2. destruct r'; try discriminate; reflexivity.
   - (* oneof *)
-    apply andb_prop in Hs as [Hc Hs]. apply andb_prop in Hs as [Hk Hs]. rewrite Hc, Hk. cbn [andb].
+    apply andb_prop in Hs as [Hc Hs]. apply andb_prop in Hs as [Hk Hs]. apply andb_prop in Hk as [Hk _]. rewrite Hc, Hk. cbn [andb].
     destruct (find_msg D (value_full f)) as [m2|] eqn:Ef; [|discriminate].
     apply andb_prop in Hs as [H1 H2]. apply ref_eqb_eq in H1. subst r.
     assert (Hm : In m2 (d_msgs D)) by (eapply find_msg_In; eauto).
